@@ -23,6 +23,69 @@ type Wide struct {
 	Type string   `json:"type"`
 	Bits []uint64 `json:"bits,omitempty"`
 	Strs []string `json:"strs,omitempty"`
+	View *View    `json:"view,omitempty"`
+}
+
+// View makes the argument slice of a variadic call (passed as s...) a window into a larger buffer: Off elements
+// before it and Spare elements of unused capacity after it, all filled with "poison" values (type extremes,
+// +-Inf, "" and "\xff\xff\xff" alternating) that would change the result of any helper that looked outside v[:len(v)].
+type View struct {
+	Off   int `json:"off,omitempty"`
+	Spare int `json:"spare,omitempty"`
+}
+
+const (
+	maxViewOff   = 64
+	maxViewSpare = 1 << 18 // elements: 2 MiB of unused capacity for 8-byte elements
+)
+
+func (v *View) ok() bool {
+	return v == nil || (v.Off >= 0 && v.Off <= maxViewOff && v.Spare >= 0 && v.Spare <= maxViewSpare)
+}
+
+func (v *View) labels(elemSize int) []string {
+	if v == nil {
+		return nil
+	}
+	l := []string{"view:window-into-a-larger-buffer"}
+	if v.Off > 0 {
+		l = append(l, "view:elements-before")
+	}
+	switch {
+	case v.Spare*elemSize > 1<<20:
+		l = append(l, "view:spare-capacity>1MiB")
+	case v.Spare > 0:
+		l = append(l, "view:spare-capacity")
+	}
+	return l
+}
+
+// mkArgs allocates the argument slice of length n according to the view (nil: a plain exact-size slice).
+func mkArgs[T any](v *View, n int, poison ...T) []T {
+	if v == nil {
+		return make([]T, n)
+	}
+	buf := make([]T, v.Off+n+v.Spare)
+	for i := range buf {
+		buf[i] = poison[i%len(poison)]
+	}
+	return buf[v.Off : v.Off+n] // capacity n+Spare: the poison after the window is reachable through cap()
+}
+
+// shortVals keeps error texts (and the cost of formatting them) bounded for long argument lists.
+func shortVals[T any](v []T) any {
+	if len(v) <= classifyMax {
+		return v
+	}
+	s := make([]any, 0, 16)
+	for _, x := range v[:8] {
+		s = append(s, x)
+	}
+	s = append(s, fmt.Sprintf("... (%d arguments in all) ...", len(v)))
+	for _, x := range v[len(v)-4:] {
+		s = append(s, x)
+	}
+	return s
 }
 
 type wtype struct {
@@ -135,7 +198,7 @@ func RunWide(c Wide) pbt.Outcome {
 		n /= 2
 	}
 	lo, hi := argRange(c.Fn)
-	if !ok || n < lo || n > hi {
+	if !ok || n < lo || n > hi || !c.View.ok() {
 		return malformed()
 	}
 	return wt.run(c, wt)
@@ -281,10 +344,8 @@ const classifyMax = 64
 
 func runInt[T typ.Integer](c Wide, wt *wtype) pbt.Outcome {
 	n := len(c.Bits)
-	args := make([]T, n)
-	vals := make([]*big.Int, n)
-	var cl intClass
 	out := pbt.Outcome{Labels: []string{"fn:" + c.Fn, "type:" + c.Type, "kind:" + map[bool]string{true: "int", false: "uint"}[wt.signed] + strconv.Itoa(wt.bits), "args=" + argsClass(n)}}
+	out.Labels = append(out.Labels, c.View.labels(wt.bits/8)...)
 	if ^T(0) < 0 != wt.signed {
 		return pbt.Fail("harness error: signedness table wrong for %s", c.Type)
 	}
@@ -294,6 +355,9 @@ func runInt[T typ.Integer](c Wide, wt *wtype) pbt.Outcome {
 			return runIntLong[T](c, wt, out)
 		}
 	}
+	args := mkArgs(c.View, n, T(wt.minBits()), T(wt.maxBits()))
+	vals := make([]*big.Int, n)
+	var cl intClass
 	for i, b := range c.Bits {
 		b &= wt.mask()
 		args[i] = T(b)
@@ -462,7 +526,7 @@ func runIntLong[T typ.Integer](c Wide, wt *wtype, out pbt.Outcome) pbt.Outcome {
 		return b
 	}
 	text := func(b uint64) string { return wt.bigOf(b).String() }
-	args := make([]T, len(c.Bits))
+	args := mkArgs(c.View, len(c.Bits), T(wt.minBits()), T(wt.maxBits()))
 	shown := make([]string, 0, 12)
 	for i, b := range c.Bits {
 		b &= m
@@ -628,10 +692,11 @@ func sameFloat(a, b float64) bool { return a == b || (a != a && b != b) }
 
 func runFloat[T typ.Float](c Wide, wt *wtype) pbt.Outcome {
 	n := len(c.Bits)
-	args := make([]T, n)
+	args := mkArgs(c.View, n, T(math.Inf(-1)), T(math.Inf(1)))
 	vals := make([]float64, n)
 	var cl floatClass
 	out := pbt.Outcome{Labels: []string{"fn:" + c.Fn, "type:" + c.Type, "kind:float" + strconv.Itoa(wt.bits), "args=" + argsClass(n)}}
+	out.Labels = append(out.Labels, c.View.labels(wt.bits/8)...)
 	for i, b := range c.Bits {
 		vals[i] = wt.floatOf(b)
 		if vals[i] != vals[i] {
@@ -646,7 +711,7 @@ func runFloat[T typ.Float](c Wide, wt *wtype) pbt.Outcome {
 		}
 	}
 	out.Labels = append(out.Labels, cl.labels()...)
-	call := callText(c.Fn, c.Type, vals)
+	call := callText(c.Fn, c.Type, shortVals(vals))
 	bad := func(got, want any, why string) pbt.Outcome {
 		return pbt.Fail("typ.%s = %v, want %v (%s)", call, got, want, why)
 	}
@@ -792,10 +857,11 @@ func runFloat[T typ.Float](c Wide, wt *wtype) pbt.Outcome {
 
 func runComplex[T typ.Complex](c Wide, wt *wtype) pbt.Outcome {
 	n := len(c.Bits) / 2
-	args := make([]T, n)
+	args := mkArgs(c.View, n, T(complex(math.Inf(1), math.Inf(-1))), T(complex(math.Inf(-1), 3)))
 	vals := make([]complex128, n)
 	var cl floatClass
 	out := pbt.Outcome{Labels: []string{"fn:" + c.Fn, "type:" + c.Type, "kind:complex" + strconv.Itoa(wt.bits), "args=" + argsClass(n)}}
+	out.Labels = append(out.Labels, c.View.labels(wt.bits/8)...)
 	for i := 0; i < n; i++ {
 		re, im := wt.floatOf(c.Bits[2*i]), wt.floatOf(c.Bits[2*i+1])
 		if re != re || im != im {
@@ -853,7 +919,7 @@ func runComplex[T typ.Complex](c Wide, wt *wtype) pbt.Outcome {
 		out.Labels = append(out.Labels, "arith:no-nan")
 	}
 	if !sameFloat(real(got), real(want)) || !sameFloat(imag(got), imag(want)) {
-		return pbt.Fail("typ.%s = %v, want %v (left-to-right complex arithmetic starting from the identity)", callText(c.Fn, c.Type, vals), got, want)
+		return pbt.Fail("typ.%s = %v, want %v (left-to-right complex arithmetic starting from the identity)", callText(c.Fn, c.Type, shortVals(vals)), got, want)
 	}
 	return out
 }
@@ -870,8 +936,9 @@ func abbrevQ(s string) string {
 
 func runString[T ~string](c Wide, wt *wtype) pbt.Outcome {
 	n := len(c.Strs)
-	args := make([]T, n)
+	args := mkArgs(c.View, n, T(""), T("\xff\xff\xff"))
 	out := pbt.Outcome{Labels: []string{"fn:" + c.Fn, "type:" + c.Type, "kind:string", "args=" + argsClass(n)}}
+	out.Labels = append(out.Labels, c.View.labels(16)...)
 	// reference order: bytes.Compare on the raw bytes
 	cmp := func(a, b string) int { return bytes.Compare([]byte(a), []byte(b)) }
 	hasEmpty, related := false, false
@@ -879,6 +946,9 @@ func runString[T ~string](c Wide, wt *wtype) pbt.Outcome {
 		args[i] = T(s)
 		if s == "" {
 			hasEmpty = true
+		}
+		if i >= 4*classifyMax { // classification only (labels, non-triviality): the head of a long list is enough
+			continue
 		}
 		for _, p := range c.Strs[:min(i, classifyMax)] {
 			if strings.HasPrefix(p, s) || strings.HasPrefix(s, p) {
@@ -894,7 +964,17 @@ func runString[T ~string](c Wide, wt *wtype) pbt.Outcome {
 	if related {
 		out.Labels = append(out.Labels, "args:prefix-or-equal")
 	}
-	call := fmt.Sprintf("%q", c.Strs)
+	parts := make([]string, 0, 14)
+	for i, s := range c.Strs {
+		if n > 12 && i >= 8 && i < n-4 {
+			if i == 8 {
+				parts = append(parts, fmt.Sprintf("... (%d arguments in all) ...", n))
+			}
+			continue
+		}
+		parts = append(parts, abbrevQ(s))
+	}
+	call := "[" + strings.Join(parts, " ") + "]"
 	if len(call) > 400 {
 		call = call[:300] + " ... " + call[len(call)-80:] + " (argument list shortened, see the replay file)"
 	}
@@ -1416,6 +1496,10 @@ func genWide(t *rapid.T) Wide {
 			c.Strs = append(c.Strs, genString(t, c.Strs))
 		}
 	}
+	switch fn {
+	case "Min", "Max", "Sum", "Product": // the variadic helpers: a quarter of the calls pass a window into a larger buffer
+		c.View = genView(t, 4)
+	}
 	if fn == "Clamp" { // documented domain: lo <= hi (put the bounds in order)
 		if wt.kind == "string" {
 			if bytes.Compare([]byte(c.Strs[1]), []byte(c.Strs[2])) > 0 {
@@ -1428,6 +1512,16 @@ func genWide(t *rapid.T) Wide {
 	return c
 }
 
+var viewSpares = []int{0, 0, 1, 2, 3, 7, 8, 9, 31, 33}
+
+// genView: nil in (oneIn-1)/oneIn of the draws, else a small window (0..3 elements before, 0..33 spare).
+func genView(t *rapid.T, oneIn int) *View {
+	if rapid.IntRange(0, oneIn-1).Draw(t, "view") != 0 {
+		return nil
+	}
+	return &View{Off: rapid.IntRange(0, 3).Draw(t, "view-off"), Spare: viewSpares[rapid.IntRange(0, len(viewSpares)-1).Draw(t, "view-spare")]}
+}
+
 var specWide = pbt.Register(&pbt.Spec[Wide]{
 	Property: "C20", Name: "C20.wide",
 	Rule: "case = one call fn[type](args): Min/Max (1..6 args), Clamp (lo <= hi), Clamp01, Sum/Product (0..6 args), Abs, Compare, Less, Digits10, DigitsSign10 " +
@@ -1436,9 +1530,12 @@ var specWide = pbt.Register(&pbt.Spec[Wide]{
 		"float +-0/+-Inf/+-Max/subnormals/10^k+-ulp; pairs and triples over a reduced boundary set), then rapid draws (boundary-dense, any bit pattern, " +
 		"copies/neighbours of earlier arguments; NaN never generated). References: math/big exact arithmetic reduced modulo 2^bits, strconv and math/big decimal strings, " +
 		"same-order IEEE loops in the concrete type, bytes.Compare; Min/Max judged by validity (an argument, <=/>= all). " +
+		"A quarter of the drawn Min/Max/Sum/Product calls pass their arguments as s... where s is a window into a larger buffer (0..3 elements before, 0..33 elements of spare capacity after, " +
+		"all poisoned with type extremes / +-Inf / \"\" and \"\\xff\\xff\\xff\" so that reading outside s[:len(s)] changes the result). One case in 8 is also run as 4 parallel independent copies. " +
 		"non-trivial = some integer argument at or next to a type extreme or +-10^k; some float (part) that is +-0, +-Inf, +-Max, subnormal/smallest normal or within an ulp of +-10^k; " +
 		"strings: an empty argument or two arguments where one is a prefix of (or equal to) the other",
 	Enum: enumWide,
 	Gen:  genWide,
 	Run:  RunWide, Quick: 150000, Thorough: 400000,
+	Replicas: 4, ReplicaEvery: 8,
 })
